@@ -495,7 +495,7 @@ func (s *sim) drawMsgOp(c *caller) *op {
 	ch := s.r.C
 	o := s.newOp(c, opQueueMsg)
 	pvOK := s.pingsIdentifiable()
-	w := []int{6, 4, 4, 2, 2, 1, 1}
+	w := []int{6, 4, 4, 2, 2, 1, 1, 2}
 	if !pvOK {
 		w[mkPing] = 0
 	}
@@ -690,7 +690,50 @@ func (s *sim) chunkSize() (int, bool) {
 	}
 }
 
-func (s *sim) stepDeliver() bool {
+func (s *sim) stepDeliver() bool { return s.deliver(nil) }
+
+// stepCrossfire: an application goroutine queues a reject message (what
+// netsync does about a transaction it does not like) at the very moment the
+// remote's next message - a reject of its own - is handed to the peer: the
+// input side and the output side work on the two messages concurrently, with
+// nothing of the harness between them.  Which of the two runs first is the
+// runtime's business, so the step is not part of the determinism self-test;
+// the oracles hold for every order.
+func (s *sim) stepCrossfire() bool {
+	if detMode || !s.established() || s.discStep >= 0 || s.remoteClosed || s.stalled || s.expectedPV < 70002 {
+		return false
+	}
+	idle := s.idleCallers()
+	if len(idle) == 0 || s.conn.PendingRead() > 0 || !s.conn.ReaderBlocked() {
+		return false
+	}
+	if !s.rm.remaining() {
+		if len(s.rm.items) >= 40 {
+			return false
+		}
+		it := s.rm.genApp(s.r.C, s.expectedPV)
+		it.app = appReject
+		s.rm.items = append(s.rm.items, it)
+	}
+	c := idle[s.r.C.Intn(len(idle), "caller")]
+	ok := s.deliver(func() {
+		o := s.drawMsgOp(c)
+		o.mk = mkReject
+		o.step = s.step
+		o.gateCh = make(chan struct{})
+		s.issue(c, o)
+		synctest.Wait() // the caller is at the gate
+		close(o.gateCh)
+	})
+	if ok {
+		s.r.Fault("crossfire")
+	}
+	return ok
+}
+
+// deliver hands the next chunk of the remote's script to the peer; pre, if
+// any, runs inside the step right before the bytes are handed over.
+func (s *sim) deliver(pre func()) bool {
 	rm := s.rm
 	if !rm.remaining() {
 		return false
@@ -734,6 +777,9 @@ func (s *sim) stepDeliver() bool {
 	}
 	if s.k.chunkMode == 1 {
 		s.r.Fault("chunk_1byte")
+	}
+	if pre != nil {
+		pre()
 	}
 	s.conn.Deliver(b)
 	what := ""
@@ -952,7 +998,10 @@ func (s *sim) mainLoop() {
 			budget--
 			continue
 		}
-		wDeliver, wAdv, wCall, wBurst, wClose, wStall, wArm, wRel, wWait, wMore := 0, 5, 12, 0, 1, 0, 0, 0, 1, 0
+		wDeliver, wAdv, wCall, wBurst, wClose, wStall, wArm, wRel, wWait, wMore, wCross := 0, 5, 12, 0, 1, 0, 0, 0, 1, 0, 0
+		if !detMode && s.established() && !disconnected && s.k.chunkMode == 0 {
+			wCross = 4
+		}
 		if !s.rm.remaining() && !s.remoteClosed && s.established() && !disconnected && len(s.rm.items) < 40 {
 			wMore = 6
 		}
@@ -986,7 +1035,7 @@ func (s *sim) mainLoop() {
 		}
 		ok := true
 		counted := true
-		switch simkit.Pick(c, "ev", wDeliver, wAdv, wCall, wBurst, wClose, wStall, wArm, wRel, wWait, wMore) {
+		switch simkit.Pick(c, "ev", wDeliver, wAdv, wCall, wBurst, wClose, wStall, wArm, wRel, wWait, wMore, wCross) {
 		case 0:
 			ok = s.stepDeliver()
 			deliverCap--
@@ -1007,6 +1056,8 @@ func (s *sim) mainLoop() {
 			ok = s.stepRelease()
 		case 8:
 			ok = s.stepWaiter()
+		case 10:
+			ok = s.stepCrossfire()
 		default:
 			s.remoteMore()
 			counted = false
